@@ -767,6 +767,14 @@ func g3TextOracle(c G3Case, fin *g3Table, warned map[string]bool, count func(str
 
 type g3Gen struct{ r *RNG }
 
+func g3Hash(t string) uint32 {
+	h := uint32(2166136261)
+	for i := 0; i < len(t); i++ {
+		h = (h ^ uint32(t[i])) * 16777619
+	}
+	return h
+}
+
 func (g *g3Gen) pick(l ...string) string { return l[g.r.Intn(len(l))] }
 
 func (g *g3Gen) aclLines(name string, n int, v6 bool, groups []string, app bool) []string {
@@ -1068,6 +1076,16 @@ func (g *g3Gen) genASA() G3Case {
 		return strings.Join(l, "\n") + "\n"
 	}
 	c := G3Case{Model: "ASA", V4: join(v4), V6: join(v6), Raw: join(raw)}
+	// IPv6 file that references one non-simple object from two new commands (1 case in 40, chosen by a hash of the
+	// case text so that the random stream of all other cases is untouched): the model has no answer
+	// (`unmodelled`), the text-line oracle and the ACL laws judge the real result
+	if h := g3Hash(c.V4 + "\x00" + c.V6 + "\x00" + c.Raw); h%40 == 0 {
+		c.V6 += fmt.Sprintf("access-list A6 extended permit ip host 1000::%x any6\n", 1+h%4000)
+		if h%3 != 0 {
+			c.V6 += "access-list A6 extended deny ip any6 any6\n"
+		}
+		c.V6 += "access-group A6 in interface if1\naccess-group A6 out interface if2\n"
+	}
 	if r.Chance(8) {
 		c.V4 = ""
 	}
@@ -1288,6 +1306,15 @@ func runCisco3(ctx *Ctx, res *Result, drv *Nadrv) {
 		}
 		if impl != model && !unmodelled {
 			res.Disagree("c18 cisco MergeSpoc (general model)", c, g3Show(impl), g3Show(model))
+		}
+		// spec side, no model: the diagnostics "only once in raw", "Name clash … from raw", "not supported in raw file"
+		// are rules for the raw file; merging the IPv6 file into the IPv4 file must not end with one of them
+		// (also judges the cases the model has no answer for)
+		if r.aborted && r.stages["v6"] != nil && r.stages["v4+v6"] == nil {
+			res.Count("g3:abort-while-merging-ipv6")
+			if k := strings.Fields(impl); len(k) > 1 && (k[1] == "onlyOnce" || k[1] == "nameClash" || k[1] == "notSupported") {
+				fail("ipv6_merge_aborts_with_raw_diagnostic", "merging the IPv6 file aborts with a diagnostic that is a rule for raw files: "+strings.TrimSpace(r.stderr))
+			}
 		}
 		for _, v := range g3Oracle(r) {
 			fail(v.pred, v.what)
